@@ -437,6 +437,60 @@ func checkC17(r *Result) {
 			r.check(okAll && n > 0 && len(ps.Matched["committed"]) > 0, "LOCKSTEP", name+" # data is taken only from votes flagged as committed (the ones whose extension signature was verified)", P.Pos(fn.Pos()), fmt.Sprintf("%d append sites", n))
 		}
 	}
+	// the extractors (and the helpers they call in package app) only read the commit they are given: its vote slice shares
+	// its backing array with the request's LocalLastCommit / the injected commit, which is marshalled or validated afterwards
+	{
+		mutators := map[string]bool{"slices.DeleteFunc": true, "slices.Delete": true, "slices.Compact": true, "slices.CompactFunc": true, "slices.Reverse": true,
+			"slices.Sort": true, "slices.SortFunc": true, "slices.SortStableFunc": true, "slices.Insert": true, "slices.Replace": true,
+			"sort.Slice": true, "sort.SliceStable": true, "sort.Sort": true, "sort.Stable": true}
+		var roots []*ssa.Function
+		for _, name := range []string{"(*app.ProposalHandler).CheckInitialSignaturesFromLastCommit", "(*app.ProposalHandler).CheckValsetSignaturesFromLastCommit", "(*app.ProposalHandler).CheckOracleAttestationsFromLastCommit"} {
+			if fn := P.Func(name); fn != nil {
+				roots = append(roots, fn)
+			}
+		}
+		reach := P.Reachable(roots, nil)
+		var fns []*ssa.Function
+		for fn := range reach {
+			if fn.Pkg != nil && fn.Pkg.Pkg.Path() == modPath+"/app" {
+				fns = append(fns, fn)
+				fns = append(fns, fn.AnonFuncs...)
+			}
+		}
+		sort.Slice(fns, func(i, j int) bool { return FuncName(fns[i]) < FuncName(fns[j]) })
+		isVotes := func(v ssa.Value) bool {
+			return strings.Contains(v.Type().String(), "[]github.com/cometbft/cometbft/abci/types.ExtendedVoteInfo")
+		}
+		bad := ""
+		for _, fn := range fns {
+			for _, b := range fn.Blocks {
+				for _, in := range b.Instrs {
+					switch x := in.(type) {
+					case *ssa.Call:
+						name := CalleeName(x.Common())
+						if i := strings.Index(name, "["); i > 0 {
+							name = name[:i]
+						}
+						if bi, ok := x.Call.Value.(*ssa.Builtin); ok && (bi.Name() == "copy" || bi.Name() == "append") && len(x.Call.Args) > 0 && isVotes(x.Call.Args[0]) {
+							bad = P.Pos(x.Pos()) + ": " + bi.Name() + " into the commit's vote slice"
+						}
+						if mutators[name] {
+							for _, a := range x.Call.Args {
+								if isVotes(a) {
+									bad = P.Pos(x.Pos()) + ": " + name + " on the commit's vote slice"
+								}
+							}
+						}
+					case *ssa.Store:
+						if ia, ok := x.Addr.(*ssa.IndexAddr); ok && isVotes(ia.X) {
+							bad = P.Pos(x.Pos()) + ": store into the commit's vote slice"
+						}
+					}
+				}
+			}
+		}
+		r.check(bad == "" && len(fns) >= 3, "COMMIT-INJECTED", "the extractors only read the commit they are given (its vote slice is shared with the request and the injected tx)", "-", fmt.Sprintf("%d functions of package app scanned %s", len(fns), bad))
+	}
 	// REGISTER-ONCE
 	if ci := P.Func("(*app.ProposalHandler).CheckInitialSignaturesFromLastCommit"); ci != nil {
 		noAddr := func(rel *Term) (bool, bool) {
